@@ -2,6 +2,7 @@ import LdkModel.Props.C06
 #print axioms Ldk.C06.revoked_secret_available
 #print axioms Ldk.C06.revoked_secret_available_in_monitor
 #print axioms Ldk.C06.claim_data_retained
+#print axioms Ldk.C06.revoked_fully_claimed_partial
 #print axioms Ldk.C06.revoked_fully_claimed
 #print axioms Ldk.C06.bump_progress
 #print axioms Ldk.C06.feerate_bump_monotone
